@@ -234,9 +234,10 @@ impl SimDriver {
                 } else {
                     acts.push((Act::PeerAck(c, 0), 30));
                     if plan.peer.pubcomp_any_order && !settle {
-                        // PUBCOMPs may be sent in any order relative to each other
+                        // a PUBCOMP answers a PUBREL: it may be sent in any order relative to other
+                        // PUBCOMPs and ahead of the acknowledgements owed to earlier PUBLISH packets
                         for (i, o) in peer.owed.iter().enumerate().skip(1) {
-                            if matches!(o, Owed::PubComp(_)) && matches!(peer.owed[0], Owed::PubComp(_)) {
+                            if matches!(o, Owed::PubComp(_)) {
                                 acts.push((Act::PeerAck(c, i), 10));
                             }
                         }
